@@ -264,6 +264,12 @@ class GridInterp:
                 continue
             if isinstance(s, ast.Assign) and len(s.targets) == 1 and isinstance(s.targets[0], ast.Name):
                 env[s.targets[0].id] = self.ev(s.value, env)
+            elif isinstance(s, ast.Assign) and len(s.targets) == 1 and isinstance(s.targets[0], ast.Tuple) and all(isinstance(t_, ast.Name) for t_ in s.targets[0].elts):
+                v_ = self.ev(s.value, env)
+                if not (isinstance(v_, (list, tuple)) and len(v_) == len(s.targets[0].elts)):
+                    raise Unrecognised('unpacking %s' % unparse(s))
+                for t_, x_ in zip(s.targets[0].elts, v_):
+                    env[t_.id] = x_        # the same objects: views of the module-level table stay aliases of it
             elif isinstance(s, ast.Assign) and len(s.targets) == 1 and isinstance(s.targets[0], ast.Subscript):
                 base = self.ev(s.targets[0].value, env)
                 if id(base) in self.shared:
